@@ -7,6 +7,7 @@ import Nstd.Sync.LemmasScenario
 import Nstd.Sync.LiveSem
 import Nstd.Sync.LiveSignal
 import Nstd.Sync.LiveMonitor
+import Nstd.Sync.WhatIf
 /-
   Property C11 — Mutex, Semaphore, Signal, Monitor and Thread keep their contracts under every interleaving.
 
@@ -248,6 +249,18 @@ theorem monitor_set_after_take_releases_a_waiter {now spur : Nat} {s : Monitor.S
 example : ∃ s, Monitor.Reach 0 0 s ∧ s.flag = true ∧ s.pc 1 = .wBlocked none true ∧ s.pc 2 = .setUnlock := by
   refine ⟨_, Monitor.reach_runActs [(1, .call .lock), (1, .run 0), (1, .call .wait), (1, .run 0), (2, .call .set), (2, .run 0)] .init rfl,
     ?_, ?_, ?_⟩ <;> rfl
+
+/-- WHAT-IF (not the assumed semantics): if the POSIX layer let a timed-out waiter consume a concurrent signal,
+    `Monitor::wait(timeout)` — which returns false on ETIMEDOUT without looking at the flag — would lose the wake-up:
+    after the schedule `lossySchedule` thread 1 is blocked in wait() although a set() stored the flag after it had
+    joined the wait set, the flag is still set, the monitor is free, the setter (3) and the timed waiter (2, whose
+    wait returned false: one entry in `flog`) are idle, and nobody is left to wake thread 1.  Under the assumed semantics this state is unreachable
+    (`monitor_set_after_take_releases_a_waiter`). -/
+theorem whatif_signal_consumed_by_timed_out_waiter_loses_a_wakeup :
+    ∃ s, Monitor.runLossy (Monitor.init 0 0) Monitor.lossySchedule = some s ∧
+      s.flag = true ∧ s.pc 1 = .wBlocked none true ∧ s.waiters = [1] ∧ s.m = none ∧
+      s.pc 2 = .idle ∧ s.flog.length = 1 ∧ s.pc 3 = .idle ∧ s.succ = 0 ∧ s.sets = 1 := by
+  refine ⟨_, rfl, ?_, ?_, ?_, ?_, ?_, ?_, ?_, ?_, ?_⟩ <;> rfl
 
 /-! ## timed waits -/
 
